@@ -302,8 +302,13 @@ let step (ss : sess) (t : str array) : str =
   | "insnlimit" ->
     ss.states.(ss.cur) <- set_limits (set_meter s Z0) (optz t.(1)) s.heap_limit s.stack_limit; "ok"
   | "input" ->
+    (* set_binary_input calls open_bitstr directly: no data-stack traffic, so the stack limit is lifted around it *)
     let b = cbs_of t.(1) t.(2) t.(3) in
-    upd (res_str (Vm.bind (push_data (CBits b)) (fun _ -> Words.w_open_bitstr) s))
+    let s0 = set_limits s s.insn_limit s.heap_limit None in
+    (match Vm.bind (push_data (CBits b)) (fun _ -> Words.w_open_bitstr) s0 with
+     | ROk ((), s1) -> upd (res_str (ROk ((), set_limits s1 s.insn_limit s.heap_limit s.stack_limit)))
+     | RErr (k, p, s1) -> upd (res_str (RErr (k, p, set_limits s1 s.insn_limit s.heap_limit s.stack_limit)))
+     | r -> upd (res_str r))
   | "intercept" ->
     let on = t.(1) = "on" in
     let r = Vm.bind (get_var Words.coq_R_OUTPUT) (fun v ->
